@@ -233,11 +233,14 @@ func genC04(rt *rapid.T, transports []string) *c04Case {
 
 func TestC04(t *testing.T) {
 	rec := NewRecorder("C04", "TestC04")
+	w := StartSpinWatchAfter("C04", 25)
+	defer w.Stop()
 	rapid.Check(t, func(rt *rapid.T) {
 		c := genC04(rt, []string{"inproc", "inproc", "tcp", "tcp-small", "tcp-small", "tcp-tls"})
 		o := &Outcome{}
 		var obs *c04Obs
 		rec.Journal(c)
+		w.Case(c)
 		rapid.SyncTest(rt, func(rt *rapid.T) { obs = runC04Virtual(c) })
 		judgeC04(c, obs, o)
 		rec.Check(rt, c, o)
